@@ -76,10 +76,11 @@ def strategy(deep=False):
                 bases = draw(st.lists(st.sampled_from('ACGT'), min_size=nf, max_size=nf))
                 quals = draw(st.lists(st.sampled_from([20, 30, 40]), min_size=nf, max_size=nf))
             plant[str(pos)] = [bases[:nf], quals[:nf]]
+        umi_errors = draw(st.lists(st.booleans(), min_size=nf, max_size=nf)) if (not deep and draw(st.integers(0, 3)) == 0) else []
         mask = None
         if draw(st.integers(0, 3)) == 0:
             mask = [max(0, site - draw(st.integers(0, 60))), draw(st.integers(5, 150))]
-        return {'mask': mask, 'ref': ref, 'method': method, 'rev': rev, 'site': site, 'frags': frags, 'errseed': errseed, 'plant': plant,
+        return {'umi_errors': umi_errors, 'mask': mask, 'ref': ref, 'method': method, 'rev': rev, 'site': site, 'frags': frags, 'errseed': errseed, 'plant': plant,
                 'conflict': conflict_q, 'max_N_span': draw(st.sampled_from([None, None, 0, 5, 50])),
                 'entry': draw(st.sampled_from(['deduplicate_majority', 'deduplicate_majority', 'write_pysam'])),
                 # history: a consensus is requested when only the first k fragments are associated, then the molecule grows
@@ -345,19 +346,22 @@ def eval_api(case):
     try:
         with pysam.FastaFile(fa) as fasta:
             fcls, mcls = (NlaIIIFragment, NlaIIIMolecule) if case['method'] == 'nla' else (CHICFragment, CHICMolecule)
+            # UMIs of the fragments: all alike, or some carrying a sequencing error (distance 1; fragments then join under distance 1)
+            pat = case.get('umi_errors') or []
+            umis = ['ACT' if (i < len(pat) and pat[i]) else 'ACG' for i in range(len(desc))]
             frs = []
             for fi, fr in enumerate(desc):
                 reads = []
                 for r in fr:
                     other = [x for x in fr if x is not r]
-                    a = mk_read(h, 'frag%d' % fi, 0, r['pos'], r['seq'], reverse=r['reverse'], sample='cellX', umi='ACG', cigar=r['cigar'],
+                    a = mk_read(h, 'frag%d' % fi, 0, r['pos'], r['seq'], reverse=r['reverse'], sample='cellX', umi=umis[fi], cigar=r['cigar'],
                                 qual=''.join(chr(33 + q) for q in r['qual']), paired=True, read2=r['read2'],
                                 mate=((0, other[0]['pos'], other[0]['reverse'], False) if other else (0, 0, False, True)),
                                 tags={'BC': 'AAACCCGG', 'MD': md_tag(ref, r['pos'], r['seq'], r['cigar'])})
                     reads.append(a)
                 if len(reads) == 1:
                     reads.append(None)
-                frs.append(fcls(reads, umi_hamming_distance=0))
+                frs.append(fcls(reads, umi_hamming_distance=0 if len(set(umis)) == 1 else 1))
             if not all(f.is_valid() for f in frs):
                 return out.label('skipped: generated fragment not valid')
             cap = case.get('cap')
@@ -395,7 +399,13 @@ def eval_api(case):
                 tb = [x for x in traceback.extract_tb(e.__traceback__) if 'singlecellmultiomics' in x.filename]
                 return out.bad('api:exception:%s:%s' % (type(e).__name__, tb[-1].name if tb else '?'), repr(e)[:300])
             site = frs[0].site_location[1] if frs[0].site_location else None
-            covered = check_records(recs, case, desc, out, 'api', span, 'cellX', 'ACG', site, len(frs))
+            cnt_ = {}
+            for u in umis[:accepted]:       # fragments refused by a cap do not vote
+                cnt_[u] = cnt_.get(u, 0) + 1
+            top = sorted(cnt_.items(), key=lambda kv: -kv[1])
+            # the record carries the UMI seen in most fragments (not asserted when two UMIs are equally frequent)
+            want_umi = top[0][0] if len(top) == 1 or top[0][1] > top[1][1] else None
+            covered = check_records(recs, case, desc, out, 'api', span, 'cellX', want_umi, site, len(frs))
             pos_sorted = sorted(covered)
             gaps = any(b - a > 1 for a, b in zip(pos_sorted, pos_sorted[1:]))
             conflicts = any(len({b for b, q in v if b != 'N'}) > 1 for v in covered.values())
